@@ -256,7 +256,22 @@ def run(ctx):
     data, pct = S(fs_.params[0]), S(fs_.params[1])
     srt = mk_fn("sort", [data])
     lag = mk_fn("int", [mk_fn("len", [srt]) * pct / 100])
-    cand = Form.atom(("idx", srt, SliceV(lag, Const(None), Const(None)))) - Form.atom(("idx", srt, SliceV(Const(None), -lag, Const(None))))
+    def diff_with(hi):
+        return Form.atom(("idx", srt, SliceV(lag, Const(None), Const(None)))) - Form.atom(("idx", srt, SliceV(Const(None), hi, Const(None))))
+    # the lag-differences sorted[lag:] - sorted[:len-lag].  Written with the upper bound -lag they are right for lag >= 1 only: for
+    # lag = 0 (percent*len < 100) sorted[:-0] is EMPTY and the subtraction raises - the statement covers every percentage in (0, 100)
+    cand_neg = diff_with(-lag)
+    good = [diff_with(n_ - lag) for n_ in (mk_fn("len", [data]), mk_fn("len", [srt]), S(fs_.params[0] + ".size"), mk_fn("size", [data]))]
+    used = [a for it_ in items if isinstance(it_, Form) for a in it_.atoms() if a[0] == "fn" and a[1] in ("min", "argmin") and a[2] and isinstance(a[2][0], Form)]
+    cand = next((g for g in good if any(u[2][0] == g for u in used)), None)
+    if cand is None and any(u[2][0] == cand_neg for u in used):
+        ctx.violation("C18.3", fs_, rets[0].node, "shortest_int: lag-differences sorted[lag:] - sorted[:-lag]",
+                      "for lag = 0 (percent*len < 100, e.g. 50 samples at 1 %) the slice [:-0] is empty and the subtraction raises ValueError: no interval is returned for small percentages")
+        cand = cand_neg
+    elif cand is None:
+        cand = good[0]
+    else:
+        ctx.holds("C18.3", fs_, rets[0].node, "shortest_int: lag-differences sorted[lag:] - sorted[:len-lag]", "defined for every lag 0 .. len-1")
     lo_a = items[0].single_atom() if isinstance(items[0], Form) else None
     hi_a = items[1].single_atom() if isinstance(items[1], Form) else None
     if not (lo_a and hi_a and lo_a[0] == "idx" and hi_a[0] == "idx" and lo_a[1] == srt and hi_a[1] == srt):
